@@ -14,6 +14,9 @@
    each case becomes a C function in a batched program compiled by the chibicc
    built from the tree under test; the printed object bytes are compared with
    the specification's.  gcc is the tie-break (never the judge).
+   Besides values from memory / constants / initializers, truth tests are also applied to rvalues just produced
+   in a register (families tcv, tar), and the macros of <float.h> and the predefined __SIZEOF_*__ macros are
+   compared with the values that follow from the specification's format records (families lim, szof).
 """
 import json, os, zlib
 import vt
@@ -39,6 +42,7 @@ static void dump(int id, void *p, int n, int sz) {
   for (int i = 0; i < n; i++) printf("%02x", b[i]);
   printf("\n");
 }
+static double tar_y1 = 0x15555555555555p-54, tar_y0 = -0.0;
 static double vd(int n, ...) {
   va_list ap; va_start(ap, n);
   int k = va_arg(ap, int);
@@ -169,6 +173,39 @@ def chain_expr(c, x, y, z):
 AGG = ("agg-arr", "agg-nest", "agg-mem", "agg-desg", "agg-cl")
 
 
+def tform_expr(c, i, x, y):
+    """the operand E of the truth test: family tcv = a conversion result in one of five forms (cast, value of an
+    assignment expression, function return value, negated cast, right operand of a comma); tar = x op y"""
+    if c["f"] == "tar":
+        return "(%s %s %s)" % (x, OPS[c["op2"]], y)
+    T, form = CT[c["bt"]], c["it"]
+    if form == "cast":
+        return "(%s)%s" % (T, x)
+    if form == "asg":
+        return "(t = %s)" % x
+    if form == "ret":
+        return "g%d(%s)" % (i, x)
+    if form == "neg":
+        return "-(%s)%s" % (T, x)
+    return "(I%d[0], (%s)%s)" % (i, T, x)
+
+
+def tctx_stmt(c, i, E, lit, v):
+    """the truth test: returns (statement that defines int r, expression whose size is printed)"""
+    op = c["op"]
+    k1 = "1" if lit else "(I%d[0] | 1)" % i
+    k0 = "0" if lit else "(I%d[0] & 0)" % i
+    if op == "if":
+        return (["int r; if (%s) r = 1; else r = 0;", "int r = 0; while (%s) { r = 1; break; }",
+                 "int r = 0; for (; %s; ) { r = 1; break; }"][v] % E, "r")
+    e = {"not": "!%s" % E, "cond": "%s ? 1 : 0" % E, "bool": "(_Bool)%s" % E, "land": "%s && %s" % (E, k1),
+         "lor": "%s || %s" % (E, k0), "rland": "%s && %s" % ("%(Y)s", E), "rlor": "%s || %s" % ("%(Y)s", E)}[op]
+    return "int r = %s;" % e, ("r" if op == "bool" else e)
+
+
+LIM_NOIF = {"FLT_ROUNDS"}          # 5.2.4.2.2p10: every integer value except FLT_ROUNDS is usable in #if
+
+
 def modes(c):
     """the embeddings available for a case: {mode: (x literal, y literal)}"""
     f = c["f"]
@@ -207,6 +244,22 @@ def modes(c):
             out["literal"] = (xl, yl)
     if f in ("dec", "hex"):
         out = {"local": (None, None), "static": (None, None)}
+    if f in ("tcv", "tar"):
+        xl = operand_literal(c["at"], c["xb"])
+        yl = operand_literal(c["bt"] if f == "tar" else "double", c["yb"]) if c["yb"] else ""
+        if xl is not None and yl is not None:
+            out["literal"] = (xl, yl)
+            # a constant expression (6.6): no assignment, call or comma, and `if` is not an expression
+            if c["op"] != "if" and (f == "tar" or c["it"] in ("cast", "neg")):
+                out["static"] = (xl, yl)
+        return out
+    if f in ("lim", "szof"):
+        out = {"local": (None, None)}
+        if c["rt"] == "int" and c["man"] not in LIM_NOIF:
+            out["ppif"] = (None, None)
+        if f == "lim":
+            out["static"] = (None, None)
+        return out
     if "static" in out and f not in ("chl", "chr"):
         # the same constant expression as an element initializer of an object with automatic storage duration
         for m in AGG:
@@ -222,6 +275,8 @@ def context(c):
     if c.get("_mode") in ms:
         return (c["_mode"],) + ms[c["_mode"]]
     f = c["f"]
+    if f in ("lim", "szof"):
+        return ("local", None, None)
     if f in ("dec", "hex"):
         m = "static" if vsel(c) % 3 == 2 else "local"
         return (m,) + ms[m]
@@ -270,6 +325,8 @@ def render(i, c):
     if data:
         out.append("static unsigned char I%d[] = {%s};" % (i, ",".join(map(str, data))))
     pre, body = [], []
+    if f in ("tcv", "tar", "lim", "szof"):
+        return render_new(i, c, out)
     if f not in ("dec", "hex"):
         pre.append("%s x; memcpy(&x, I%d, %d);" % (CT[at], i, len(c["xb"])))
         if c["yb"]:
@@ -403,6 +460,59 @@ def render(i, c):
     return "\n".join(out) + "\n"
 
 
+def render_new(i, c, out):
+    """families tcv / tar (truth tests of rvalues) and lim / szof (<float.h>, __SIZEOF_*__)"""
+    f, op, at, bt, rt = c["f"], c["op"], c["at"], c["bt"], c["rt"]
+    mode, xl, yl = context(c)
+    if f in ("lim", "szof"):
+        name, RT = c["man"], CT[rt]
+        szexpr = c["it"] if f == "szof" else "r"
+        if f == "lim":
+            out.insert(0, "#include <float.h>")
+        if mode == "ppif":
+            # r is the specification's value iff the preprocessor finds the macro equal to it
+            body = "\n#if (%s) == (%d)\n int r = %d;\n#else\n int r = 0x7fffffff;\n#endif\n" % (name, c["ex"], c["ex"])
+        elif mode == "static":
+            body = "static %s G = %s; %s r = G;" % (RT, name, RT)
+        else:
+            body = "%s r = %s;" % (RT, name)
+        # a macro that is not defined is a mismatch of this case (line "U"), not a program that does not compile
+        out.append("#ifdef %s" % name)
+        out.append("static void f%d(void) { %s dump(%d, &r, %d, (int)sizeof(%s)); }" % (i, body, i, NBYTES[rt], szexpr))
+        out.append("#else\nstatic void f%d(void) { printf(\"U %d\\n\"); }\n#endif" % (i, i))
+        return "\n".join(out) + "\n"
+    lit = mode != "memory"
+    pre = []
+    if not lit:
+        pre.append("%s x; memcpy(&x, I%d, %d);" % (CT[at], i, len(c["xb"])))
+        if c["yb"]:
+            pre.append("%s y; memcpy(&y, I%d + %d, %d);" % (CT[bt] if f == "tar" else "double", i, len(c["xb"]), len(c["yb"])))
+    x, y = (xl, yl) if lit else ("x", "y")
+    if f == "tcv":
+        if c["it"] == "asg":
+            pre.append("%s t;" % CT[bt])
+        if c["it"] == "ret":
+            out.append("static %s g%d(%s v) { return v; }" % (CT[bt], i, CT[at]))
+        E = tform_expr(c, i, x, None)
+        stmt, e = tctx_stmt(c, i, E, lit, vsel(c) % 3)
+        stmt, e = stmt.replace("%(Y)s", y or ""), e.replace("%(Y)s", y or "")
+    else:
+        E = tform_expr(c, i, x, y)
+        stmt, e = tctx_stmt(c, i, E, lit, vsel(c) % 3)
+        # y && E / y || E: both value indices are taken by x and y of E; the left operand is the specification's TcY
+        stmt, e = stmt.replace("%(Y)s", TAR_Y[op][lit] if op in TAR_Y else ""), e.replace("%(Y)s", TAR_Y[op][lit] if op in TAR_Y else "")
+    if mode == "static":
+        out.append("static int G%d = %s;" % (i, e))
+        stmt, e = "int r = G%d;" % i, "r"
+    out.append("static void f%d(void) { %s %s dump(%d, &r, 4, (int)sizeof(%s)); }" % (i, " ".join(pre), stmt, i, e))
+    return "\n".join(out) + "\n"
+
+
+# family tar: the left operand of `y && E` / `y || E` is the double 1/3 resp. -0.0 of the specification (TcY),
+# from memory (a static object of the prelude) or as a constant
+TAR_Y = {"rland": ("tar_y1", "0x15555555555555p-54"), "rlor": ("tar_y0", "(-0.0)")}
+
+
 def expect(i, c):
     """what a conforming implementation prints for case i"""
     rt = c["rt"]
@@ -421,6 +531,8 @@ def parse_out(text):
                 res.setdefault(int(f[1]), {})["C"] = (int(f[2]), f[3])
             elif len(f) == 3 and f[0] == "W":
                 res.setdefault(int(f[1]), {})["W"] = int(f[2])
+            elif len(f) == 2 and f[0] == "U":
+                res.setdefault(int(f[1]), {})["U"] = 1
         except ValueError:
             pass
     return res
@@ -539,6 +651,16 @@ def sig_of0(c, exp, got):
         kind = "type"
     else:
         kind = None
+    if f in ("lim", "szof"):
+        if got is not None and "U" in got:
+            kind = "undefined"
+        return "%s:%s:%s%s" % ("float.h" if f == "lim" else "sizeof-macro", c["man"], kind or "value",
+                               {"static": ":static", "ppif": ":#if"}.get(context(c)[0], ""))
+    if f in ("tcv", "tar"):
+        cl = {fval_class(t, b) for t, b in ((at, c["xb"]),) + (((bt, c["yb"]),) if f == "tar" else ()) if t in FLT}
+        cls = "nan" if "nan" in cl else "negzero" if "negzero" in cl else "value"
+        what = "%s:%s->%s" % (c["it"], SHORT[at], SHORT[bt]) if f == "tcv" else "%s:%s" % (c["op2"], SHORT[at])
+        return "%struth-rvalue:%s:%s:%s" % ("static-init:" if context(c)[0] == "static" else "", op, what, kind or cls)
     if context(c)[0] == "static" and f not in ("dec", "hex"):
         # translation-time evaluation (eval2 / eval_double); the class names the operand that matters
         ops = [(at, c["xb"])] + ([(bt, c["yb"])] if c["yb"] else [])
@@ -595,9 +717,9 @@ def nontrivial(c):
 
 
 def describe(i, c, exp, got):
-    return "%s %s (%s%s) x=%s y=%s: spec %s, chibicc %s" % (
-        c["f"], c["op"], c["at"], "," + c["bt"] if c["bt"] != "-" else "", bytes(c["xb"]).hex(), bytes(c["yb"]).hex(),
-        exp, got)
+    return "%s %s%s (%s%s) x=%s y=%s: spec %s, chibicc %s" % (
+        c["f"], c["op"], "".join(" " + str(c[k]) for k in ("op2", "it", "man") if c.get(k)), c["at"],
+        "," + c["bt"] if c["bt"] != "-" else "", bytes(c["xb"]).hex(), bytes(c["yb"]).hex(), exp, got)
 
 
 def compare(ctx, tree, cases, tag, first=0, compiler="chibicc"):
@@ -657,7 +779,13 @@ def run(ctx):
             gen_job(ctx, ["arith", "cmp"], 5 if q else 1, "gen-arith"),
             gen_job(ctx, ["dec", "hex", "mixed", "opasg"], 5 if q else 1, "gen-const"),
             gen_job(ctx, ["d2l", "d2r"], 5 if q else 1, "gen-depth2"),
-            gen_job(ctx, ["chl", "chr"], 5 if q else 1, "gen-chain")]
+            gen_job(ctx, ["chl", "chr"], 5 if q else 1, "gen-chain"),
+            # truth tests of rvalues: the plain-cast form of tcv is never subsampled (Pick in FloatGen.tla)
+            gen_job(ctx, ["tcv", "tar"], 5 if q else 1, "gen-truthrv"),
+            gen_job(ctx, ["lim", "szof"], 1, "gen-limits")]
+    only = os.environ.get("VERIF_C02_ONLY")      # development aid like VERIF_C02_SKIP_MC: a comma-separated list of generator jobs
+    if only:
+        gens = [g for g in gens if g["name"] in only.split(",")]
     jobs = [j for j in jobs if j["expect"] == "ok"] + gens + [j for j in jobs if j["expect"] == "reject"]
     box = {}
 
@@ -684,7 +812,7 @@ def run(ctx):
     rows.sort(key=case_key)                       # worker interleaving must not influence case numbers
     nvec = len(rows)
     rows = expand(rows, q)
-    if nvec < 2000:
+    if nvec < 2000 and not only:
         raise Infra("generator wrote only %d vectors" % nvec)
     if os.environ.get("VERIF_C02_ORACLE") == "gcc":
         # development: the whole domain through the reference compiler; every line printed is a spec bug or a corner to exclude
